@@ -527,6 +527,54 @@ fn run_c04(ctx: &mut Ctx, rng: &mut Rng, resp: &[Vec<u8>], thorough: bool, shard
             run_frames_case(ctx, &s, sc, rng.bool(), "literal-then-short");
         }
     }
+    // (2d) long runs and big responses under size-aligned reads: hundreds of frames on one connection
+    // (counters, periodic compaction), reads of exactly 1 KiB / 4 KiB / 16 KiB / 64 KiB, responses whose
+    // literal is 100 000 bytes, responses ending exactly at a multiple of 1024 bytes of stream offset
+    let n2d = if thorough { 200 } else { 12 } / std::cmp::max(shards / 4, 1);
+    for i in 0..n2d {
+        let mut s: Vec<u8> = vec![];
+        let frames = match i % 3 {
+            0 => 300,
+            1 => 1100,
+            _ => 40,
+        };
+        for k in 0..frames {
+            if i % 3 == 2 && k % 13 == 5 {
+                let len = *rng.pick(&[4096usize, 16384, 65536, 100_000]);
+                s.extend_from_slice(format!("* {} FETCH (BODY[] {{{}}}\r\n", k + 1, len).as_bytes());
+                s.extend((0..len).map(|j| b'a' + (j % 26) as u8));
+                s.extend_from_slice(b")\r\n");
+            } else if rng.chance(1, 6) {
+                // pad the next response so that it ends exactly at a multiple of 1024
+                let base = format!("* {} EXISTS\r\n", k + 1);
+                let target = ((s.len() + base.len() + 20) / 1024 + 1) * 1024;
+                let pad = target - s.len() - base.len() - 9;
+                s.extend_from_slice(b"* OK ");
+                s.extend((0..pad).map(|j| b'a' + (j % 26) as u8));
+                s.extend_from_slice(b"\r\n");
+                s.extend_from_slice(base.as_bytes());
+            } else {
+                let e: &Vec<u8> = rng.pick(resp);
+                if e.len() < 120 {
+                    s.extend_from_slice(e);
+                } else {
+                    s.extend_from_slice(format!("* {} EXISTS\r\n", k + 1).as_bytes());
+                }
+            }
+        }
+        let unit = *rng.pick(&[1024usize, 4096, 16384, 65536, 1000, 8192]);
+        let mut sc = vec![];
+        let mut left = s.len();
+        while left > 0 {
+            let c = std::cmp::min(unit, left);
+            sc.push(RDir::Go(c));
+            left -= c;
+            if rng.chance(1, 10) {
+                sc.push(RDir::Pending);
+            }
+        }
+        run_frames_case(ctx, &s, sc, rng.bool(), "long-run-aligned");
+    }
     // (3) random schedules
     let n3 = if thorough { 100_000 } else { 4_000 } / shards;
     for _ in 0..n3 {
@@ -550,7 +598,7 @@ fn gen_command(rng: &mut Rng) -> Command {
         6 => CommandBuilder::uid_fetch().range(1..=9).attr_macro(AttrMacro::Fast).changed_since(7).into(),
         7 => {
             // an argument beyond the 8 KiB write back-pressure boundary
-            let n = *rng.pick(&[100usize, 8000, 8180, 8192, 9000, 20000]);
+            let n = *rng.pick(&[100usize, 4096, 8000, 8180, 8192, 9000, 16384, 20000, 65536, 70000]);
             let pat: String = (0..n).map(|i| (b'a' + (i % 26) as u8) as char).collect();
             CommandBuilder::list("", &pat)
         }
